@@ -59,6 +59,11 @@ Fixpoint parse_script (fuel : nat) (l : list Z) : script * list Z :=
           let '(callee, r1) := parse_script f r in
           let '(rest, r2) := parse_script f r1 in
           (SCall (kind_of kd) to v rsz callee rest, r2)
+      | 8 :: cnd :: r =>
+          let '(s1, r1) := parse_script f r in
+          let '(s2, r2) := parse_script f r1 in
+          (SIf cnd s1 s2, r2)
+      | 9 :: a :: off :: r => let '(s, r') := parse_script f r in (SExtCode a off s, r')
       | 7 :: v :: n :: r =>
           let '(code, r0) := popn n r in
           let '(init, r1) := parse_script f r0 in
@@ -84,9 +89,6 @@ Definition enc_item (i : logitem) : list Z :=
   | LFrame c => [0; c_this c; c_caller c; c_origin c; c_value c; blen (c_code c); b2z (c_static c); c_depth c]
   | LEnd r => 1 :: enc_fres r
   | LEvent a => [2; a]
-  | LStaticValueCall => [3]
-  | LCallcodeFunds => [4]
-  | LRetcopyZero => [5]
   | LDepthNoCode => [6]
   end.
 Definition enc_log (lg : list logitem) : list Z :=
